@@ -12,7 +12,8 @@ ASSUMPTIONS = [
     "os._exit(137) at an observation point stands for SIGKILL at that instant; SQLite commits are atomic and durable (no power loss, "
     "no reordering of file writes)",
     "observation points are hook boundaries (entry/exit of protocol, setup, execute, teardown, process_report, log_end, unconfigure), "
-    "before/after every SQLAlchemy commit of pytask.DatabaseSession, and one point inside a task body after its first product write",
+    "before/after every SQLAlchemy commit of pytask.DatabaseSession, before/after every INSERT/UPDATE/DELETE statement on the state and "
+    "runtime tables, and one point inside a task body after its first product write",
     "random scenarios make no edits between the kill and the recovery builds; the corpus witness F50 (kill around every row commit, then one "
     "input put back) covers edits after the kill; task bodies are deterministic functions of their declared inputs and module text",
     "persist / skip markers are not generated (a persisted or skipped task is outside 'what a from-scratch build would give', cf. C02)",
@@ -247,7 +248,7 @@ def run(ctx):
     ctx.extra["F50_witness"] = f50
     ctx.case(["F50-witness", f50.get("kills")], f50.get("kills", 0) > 0, None)
     for st in f50.get("stale", [])[:1]:
-        ctx.violation("stale: after a kill between two state-row commits of one task and a later edit that puts one input back, the task is "
+        ctx.violation("stale: after a kill between two state-row writes of one task and a later edit that puts one input back, the task is "
                       f"reported {st['outcome']} although its product was computed from other inputs (same.txt={st['same.txt']!r}, a=2, b=1; "
                       f"killed at observation point {st['killed_at_point']} = {st['kind']})", {"witness": "F50", "layer": "crash-e2e"})
     evaluate(ctx, results)
